@@ -460,8 +460,18 @@ fn corruption_panic_scenario(seed: u64) -> ScenarioOut {
     b.epoch(epoch(0)).rng_seed(seed).simulation_duration(Duration::from_secs(1000));
     b.fs().corruption_probability(1.0);
     let mut sim = b.build();
-    let mut bar: Barrier<FsCorruption> = Barrier::build(Reaction::Panic, |_c: &FsCorruption| true);
     let nfiles = r.range(1, 2) as usize;
+    // with two files the Panic barrier matches the first file only and a later-created Noop
+    // observer matches everything: corrupted reads of the second file, issued in the same host
+    // turn right after the caught panic, must still be reported to the observer
+    let sibling = nfiles == 2;
+    let mut bar: Barrier<FsCorruption> = if sibling {
+        Barrier::build(Reaction::Panic, |c: &FsCorruption| c.path.ends_with("f0"))
+    } else {
+        Barrier::build(Reaction::Panic, |_c: &FsCorruption| true)
+    };
+    let mut observer: Option<Barrier<FsCorruption>> = if sibling { Some(Barrier::new(|_c: &FsCorruption| true)) } else { None };
+    let same_turn_reads = if sibling { r.range(1, 3) } else { 0 };
     // the triggering read goes through the handle's cursor (std::io::Read) or is positional
     let cursor_read = r.coin();
     let obs: Rc<RefCell<Vec<String>>> = Rc::new(RefCell::new(vec![]));
@@ -483,6 +493,12 @@ fn corruption_panic_scenario(seed: u64) -> ScenarioOut {
             }
         }));
         o2.borrow_mut().push(format!("read: {}", if res.is_err() { "panicked" } else { "returned" }));
+        // more corrupted reads in the same host turn, of a file the Panic barrier does not match
+        for k in 0..same_turn_reads {
+            let mut buf = [0u8; 4];
+            let r2 = std::panic::catch_unwind(std::panic::AssertUnwindSafe(|| files[1].read_at(&mut buf, k)));
+            o2.borrow_mut().push(format!("sibling read: {}", match r2 { Err(_) => "panicked".to_string(), Ok(r) => format!("{:?}", r.map_err(|e| e.kind())) }));
+        }
         // unrelated fs calls that trigger nothing
         let m = std::panic::catch_unwind(|| sfs::metadata("/d/f0").map(|m| m.len()).map_err(|e| e.kind()));
         o2.borrow_mut().push(format!("metadata: {m:?}"));
@@ -521,6 +537,17 @@ fn corruption_panic_scenario(seed: u64) -> ScenarioOut {
         }
     }
     drop(bar);
+    let mut observer_reports: Vec<String> = vec![];
+    if let Some(ob) = observer.as_mut() {
+        loop {
+            let mut fut = Box::pin(ob.wait());
+            match util::poll_once(&mut fut) {
+                std::task::Poll::Ready(Some(t)) => observer_reports.push(t.path.display().to_string()),
+                _ => break,
+            }
+        }
+    }
+    drop(observer);
     phase.set(2);
     for _ in 0..10 {
         if let Ok(Ok(true)) = util::step_catch(&mut sim) {
@@ -534,7 +561,23 @@ fn corruption_panic_scenario(seed: u64) -> ScenarioOut {
     if cursor_read {
         out.count("fs_panic_barrier_cursor_reads", 1);
     }
-    let want = vec!["read: panicked".to_string(), "metadata: Ok(Ok(16))".to_string(), "read after barrier drop: Ok(8)".to_string()];
+    let mut want = vec!["read: panicked".to_string()];
+    for _ in 0..same_turn_reads {
+        want.push("sibling read: Ok(4)".to_string());
+    }
+    want.extend(["metadata: Ok(Ok(16))".to_string(), "read after barrier drop: Ok(8)".to_string()]);
+    if sibling {
+        out.count("fs_panic_barrier_scenarios_with_sibling_reads_in_the_same_turn", 1);
+        let want_obs: Vec<String> = (0..same_turn_reads).map(|_| "/d/f1".to_string()).collect();
+        if observer_reports != want_obs {
+            out.violate(
+                if observer_reports.len() < want_obs.len() { "fs-report-missing" } else { "fs-report-extra" },
+                "C20|fs|observer-after-caught-panic".into(),
+                format!("after a Panic barrier on /d/f0 unwound a read (caught by the caller), {same_turn_reads} corrupted read(s) of /d/f1 in the same host turn were reported to the live observer as {observer_reports:?}, expected {want_obs:?}"),
+                desc.clone(),
+            );
+        }
+    }
     if o != want {
         out.violate("fs-panic-barrier", "C20|fs|panic-barrier-aftermath".into(), format!("Panic barrier on FsCorruption: observed {o:?}, expected {want:?}"), desc.clone());
     }
@@ -771,6 +814,6 @@ fn fin() -> Finish<'static> {
             "triggers after a Panic-barrier hit are outside the oracle (the host is gone); the hit itself must be reported once".into(),
         ],
         min_distinct: 100,
-        required_counters: vec!["reports_checked", "suspensions_observed", "resumes_observed", "calls_matching_several_barriers", "calls_matching_no_barrier", "panics_surfaced", "fs_corruption_reports", "calls_matching_noop", "flood_scenarios", "fs_sibling_barriers_dropped_before_the_run", "fs_panic_barrier_scenarios", "fs_panic_barrier_cursor_reads", "panic_barrier_hits_reported_once"],
+        required_counters: vec!["reports_checked", "suspensions_observed", "resumes_observed", "calls_matching_several_barriers", "calls_matching_no_barrier", "panics_surfaced", "fs_corruption_reports", "calls_matching_noop", "flood_scenarios", "fs_sibling_barriers_dropped_before_the_run", "fs_panic_barrier_scenarios", "fs_panic_barrier_cursor_reads", "panic_barrier_hits_reported_once", "fs_panic_barrier_scenarios_with_sibling_reads_in_the_same_turn"],
     }
 }
